@@ -1576,11 +1576,201 @@ def delta_parked(ctx):
         ctx.fail(dict(case, raised=repr(e)), "Delta application raised in the interleaving scenario: " + repr(e))
 
 
+# ---------------------------------------------------------------------------
+# source tie (DESIGN.md section 4.5): diff.py's caching glue regenerated from the current source
+# ---------------------------------------------------------------------------
+
+SOURCE_TIES = [{
+    "name": "cacheglue", "translator": "cacheglue", "gen_module": "CacheGen", "equiv": ["CacheGenEquiv"],
+    "needs": ["DiffIO.MemoSrcPrims", "DiffIO.MemoStepProofs", "DiffIO.MemoGlue", "DiffIO.MemoKeys", "DiffIO.MemoPairsProofs"],
+    "sources": ["deepdiff/diff.py", "deepdiff/deephash.py"],
+    "fragment": "deephash.combine_hashes_lists; DeepDiff._get_distance_cache_key, _get_rough_distance_of_hashed_objs, the cache-related statements of "
+                "_get_most_in_common_pairs_in_iterables (the pairs computation in between is one oracle call), _auto_off_cache, _auto_tune_cache, and the "
+                "statements of __init__ that create the cache / the flag / the re-enabling period (the nested DeepDiff and sha256hex are oracles)"}]
+
+TIE_HEADER = ("From DD Require Import Base.PyStr Lfu.LfuModel DiffIO.MemoModel DiffIO.MemoKeys DiffIO.MemoSrcPrims DiffIO.MemoGlue DiffIO.MemoPairs DiffIO.MemoPairsProofs.\n"
+              "From DDGen Require Import CacheGen.\nLocal Open Scope Z_scope.\n"
+              "(* concrete oracles: a hash is its rank among the hashes of the run (so > and sorted are the real ones), str / bytes of a hash are 3 digits,\n"
+              "   sha256hex is the identity, the two key enumerations are injective and disjoint *)\n"
+              "Definition hstr (h : Z) : pystr := p_of_Z (100 + h).\n"
+              "Definition enc (s : pystr) : Z := fold_left (fun acc c => acc * 257 + Z.of_N c + 1) s 0.\n"
+              "Definition kob (s : pystr) : key := 2 * enc s.\nDefinition kos (s : pystr) : key := 2 * enc s + 1.\n"
+              "Definition idh (s : pystr) : pystr := s.\n"
+              "Definition hdk : Z -> Z -> key := skey Z (okey_text Z hstr kob) Z.gtb.\n"
+              "Definition hpk (l l' : list Z) : key := pk_text Z kos hstr idh (s2p \"pairs_cache\") (zsort l) (zsort l').\n"
+              "Definition gdk : Z -> Z -> key := g__get_distance_cache_key Z Z.gtb hstr kob.\n"
+              "Definition gpk (l l' : list Z) : key := g_combine_hashes_lists Z zsort hstr idh kos [l; l'] (s2p \"pairs_cache\").\n"
+              "Definition sch (m : nat) (n : nat) : bool := match m with O => true | S _ => negb (Nat.eqb (Nat.modulo n (S m)) m) end.\n"
+              "Definition show_st (s : mstate Z) : sx := SL [sx_nat (mclock s); SL (map (fun b => SL [sx_nat (freq b); SL (map (fun kv => SL [SZ (fst kv); SZ (snd kv)]) (items b))]) (buckets (mcache s)))].\n"
+              "Definition show_res (r : Z * mstate Z) : sx := SL [SZ (fst r); show_st (snd r)].\n"
+              "Definition gfd (m : nat) (a r : Z) (body : mstate Z -> Z * mstate Z) := g__get_rough_distance_of_hashed_objs Z Z unit unit (sch m) Z.gtb hstr kob (fun _ _ _ => body) a r tt tt tt.\n"
+              "Definition gfp (m : nat) (l l' : list Z) (body : mstate Z -> Z * mstate Z) := g__get_most_in_common_pairs_in_iterables Z Z unit unit unit (sch m) zsort hstr idh kos (-1) (fun _ _ _ _ _ _ => body) l l' tt tt tt tt.\n"
+              "Definition grun (m cap : nat) (p : hprog Z Z) : sx := show_res (hrun Z Z (gfd m) (gfp m) p (mkM (empty cap) 0)).\n"
+              "Definition hrun_ (m cap : nat) (p : hprog Z Z) : sx := show_res (fst (run_cached (sch m) (to_prog Z Z hdk hpk p) (mkM (empty cap) 0))).\n"
+              "Definition show_t (o : option tstats) : sx := match o with None => SA \"ZeroDivisionError\" | Some t => SL [SZ (st_diff_count t); SZ (st_hit_count t); SZ (st_prev_diff_count t); SZ (st_prev_hit_count t); sx_bool (st_enabled t); SZ (st_enable_every t)] end.")
+TIE_STATE = {"found": []}
+
+
+def _tie_diff(ctx, name, pairs, shard=150):
+    """pairs: [(sx term over the REGENERATED definitions, sx term over the hand model)], evaluated inside Coq (vm_compute, scratch/srctie on the
+    load path as DDGen); returns (indices on which the two differ, errors)"""
+    import os
+    import re
+    from concurrent.futures import ThreadPoolExecutor
+    if not pairs:
+        return [], []
+    ctx.ensure_built(TIE_HEADER)
+    gen_dir = os.path.join(ctx.scratch, "srctie")
+    files = []
+    for k in range(0, len(pairs), shard):
+        fn = os.path.join(ctx.scratch, "tie_%s_%d.v" % (name, k // shard))
+        with open(fn, "w") as f:
+            f.write("From Coq Require Import List String ZArith NArith Bool Arith.\nImport ListNotations.\nFrom DD Require Import Base.Sx.\n")
+            f.write(TIE_HEADER + "\nLocal Open Scope string_scope.\nDefinition cases : list (sx * sx) := [\n")
+            f.write(";\n".join("(%s,\n %s)" % (g, h) for (g, h) in pairs[k:k + shard]))
+            f.write("\n].\nEval vm_compute in run_cases cases.\n")
+        files.append(fn)
+
+    def one(fn):
+        return core.sh(["coqc", "-Q", core.THEORIES, "DD", "-Q", gen_dir, "DDGen", fn], timeout=900, cwd=ctx.scratch)
+    with ThreadPoolExecutor(max_workers=core.NCPU) as ex:
+        results = list(ex.map(one, files))
+    bad, errors = [], []
+    for k, (rc, out) in enumerate(results):
+        m = re.search(r'"BEGIN\n(.*)END"', out, re.S)
+        if rc != 0 or not m:
+            errors.append("%s shard %d: %s" % (name, k, out[-400:]))
+            continue
+        for line in m.group(1).splitlines():
+            if line.strip():
+                bad.append(k * shard + int(line.partition("\t")[0]))
+    return sorted(bad), errors
+
+
+def hprog_of(nodes, hid, vid, final="HRet 0"):
+    """the recorded call tree of the cache-less run as a term of type MemoGlue.hprog Z Z: every call is given by the HASHES the method received
+    (ranks), its body by the nested calls and the recorded value; the keys are computed by whoever evaluates it"""
+    term = final
+    for n in reversed(nodes):
+        body = hprog_of(n["children"], hid, vid, "HRet %d" % vid[n["value"]])
+        if n["kind"] == "d":
+            term = "HDist %d %d (%s) (fun _ => %s)" % (hid[n["a"]], hid[n["r"]], body, term)
+        else:
+            term = "HPairs %s %s (%s) (fun _ => %s)" % (zlist(hid[h] for h in n["adds"]), zlist(hid[h] for h in n["rems"]), body, term)
+    return term
+
+
+def _tie_inputs(ctx):
+    rng = random.Random(ctx.seed ^ 0xC17)
+    ins = [K17_WITNESS + ("k17-witness",), K28_WITNESS + ("k28-witness",)]
+    ins += [planted(rng, small=True) + ("planted-small",) for _ in range(10)]
+    ins += [planted(rng) + ("planted",) for _ in range(2)]
+    return ins
+
+
+def on_source_tie_break(ctx, name, rec):
+    """The glue regenerated from the current diff.py / deephash.py is no longer proved equal to the hand model (or the translator rejected the
+    source).  If it compiled: evaluate generated vs hand-written key functions, memoised methods (on the call trees RECORDED from real cache-less
+    runs, replayed at several capacities and enable schedules) and tuner inside Coq; every input whose tree shows a difference is then judged like
+    any generated case: the call-by-call correspondence (hand model vs the real cached runs) and the direct oracle (cache on vs cache off, all
+    settings).  Returns what was searched; run() escalates the streams over the fragment whatever the outcome."""
+    import os
+    status = rec.get("status")
+    if not os.path.exists(os.path.join(ctx.scratch, "srctie", "CacheGen.vo")):
+        return {"differencing": "none: no generated model to evaluate (%s); correspondence / settings grid / tuning streams run at thorough size instead" % status,
+                "detail": str(rec.get("detail", ""))[:300]}
+    report = {"differencing": {}, "errors": []}
+    # ---- the key functions on a grid of hashes ------------------------------------------------------------------------------
+    hs = range(0, 5)
+    kp = [(a, r) for a in hs for r in hs]
+    bad, err = _tie_diff(ctx, "dkey", [("SZ (gdk %d %d)" % ar, "SZ (hdk %d %d)" % ar) for ar in kp])
+    report["errors"] += err
+    report["differencing"]["_get_distance_cache_key"] = {"arguments": len(kp), "differ": len(bad), "first": [repr(kp[i]) for i in bad[:3]]}
+    key_diff = bool(bad)
+    import itertools
+    ls = [list(p) for n in (0, 1, 2, 3) for p in itertools.permutations((1, 2, 3), n)]
+    lp = [(l, l2) for l in ls for l2 in ls]
+    bad, err = _tie_diff(ctx, "pkey", [("SZ (gpk %s %s)" % (zlist(l), zlist(l2)), "SZ (hpk %s %s)" % (zlist(l), zlist(l2))) for l, l2 in lp], shard=300)
+    report["errors"] += err
+    report["differencing"]["combine_hashes_lists"] = {"arguments": len(lp), "differ": len(bad), "first": [repr(lp[i]) for i in bad[:3]]}
+    key_diff = key_diff or bool(bad)
+    # ---- the tuner on a grid of counters ---------------------------------------------------------------------------------------
+    ts = [(d, h, pd, ph, en, ev) for d in (0, 1, 4, 8, 10, 20) for h in (0, 1, 2, 3, 5) for pd in (0, 4, 8) for ph in (0, 1, 4) for en in (True, False)
+          for ev in (0, 10, 20)]
+    mk = lambda t: "(mkT %d %d %d %d %s %d)" % (t[0], t[1], t[2], t[3], "true" if t[4] else "false", t[5])   # noqa: E731
+    tp = [(n, t) for t in ts for n in (0, 1, 2, 10)]
+    bad, err = _tie_diff(ctx, "tuner", [("SL [show_t (g__auto_tune_cache %d %s); show_t (g__auto_off_cache %s)]" % (n, mk(t), mk(t)),
+                                          "SL [show_t (auto_tune %d %s); show_t (auto_off %s)]" % (n, mk(t), mk(t))) for n, t in tp], shard=400)
+    report["errors"] += err
+    report["differencing"]["_auto_tune_cache/_auto_off_cache"] = {
+        "arguments": len(tp), "differ": len(bad),
+        "first": ["cache_tuning_sample_size=%d (DIFF_COUNT, HIT_COUNT, PREVIOUS_DIFF_COUNT, PREVIOUS_HIT_COUNT, ENABLED, ENABLE_EVERY)=%r" % tp[i] for i in bad[:3]]}
+    tuner_diff = bool(bad)
+    # ---- the memoised methods on recorded call trees ---------------------------------------------------------------------------
+    inputs = _tie_inputs(ctx)
+    cases, owner = [], []
+    install_recorder()
+    for idx, (a, b, kind) in enumerate(inputs):
+        try:
+            base, pure, _ev = record_run(a, b)
+        except Exception as e:  # noqa
+            report["errors"].append("recording %s raised %r" % (kind, e))
+            continue
+        flat = flatten(pure)
+        if isinstance(base, str) or not flat or len(flat) > 400 or not all(("a" in n) if n["kind"] == "d" else ("adds" in n) for n in flat):
+            continue
+        hashes = sorted({h for n in flat for h in ([n["a"], n["r"]] if n["kind"] == "d" else list(n["adds"]) + list(n["rems"]))})
+        if len(hashes) > 800:
+            continue
+        hid = {h: i for i, h in enumerate(hashes)}
+        vid = {}
+        for n in flat:
+            vid.setdefault(n["value"], len(vid) + 1)
+        hp = hprog_of(pure, hid, vid)
+        for m, cap in ((0, 5000), (0, 2), (0, 1), (2, 7), (1, 3)):
+            cases.append(("grun %d %d (%s)" % (m, cap, hp), "hrun_ %d %d (%s)" % (m, cap, hp)))
+            owner.append((idx, m, cap))
+    bad, err = _tie_diff(ctx, "trees", cases, shard=10)
+    report["errors"] += err
+    differing = sorted({owner[i][0] for i in bad})
+    report["differencing"]["memoised methods on recorded call trees"] = {
+        "trees": len(cases) // 5, "evaluations": len(cases), "differ": len(bad),
+        "first": [{"shape": inputs[owner[i][0]][2], "t1": repr(inputs[owner[i][0]][0])[:300], "t2": repr(inputs[owner[i][0]][1])[:300],
+                   "schedule_period": owner[i][1], "capacity": owner[i][2]} for i in bad[:2]]}
+    if not (differing or key_diff or tuner_diff):
+        report["result"] = ("the generated and the hand-written glue agree on every argument searched (the proof broke on a syntactic change); "
+                            "streams escalated to thorough size")
+        return report
+    # ---- judge the inputs like generated cases ------------------------------------------------------------------------------------
+    judged = [inputs[i] for i in differing[:6]]
+    if not judged:   # a difference in a key function / the tuner that no recorded tree reaches: the witnesses and the planted shapes
+        judged = inputs[:6]
+    TIE_STATE["found"] = judged
+    nf, nb = len(ctx.failures), len(ctx.breaks)
+    replay_witnesses(ctx)
+    with mp.get_context("fork").Pool(core.NCPU) as pool:
+        correspondence(ctx, [x for x in judged if x[2] != "k28-witness"], pool)
+        oracle_grid(ctx, judged, pool, full=True)
+        if tuner_diff:
+            oracle_tuning(ctx, pool, 150)
+    report["judged"] = {"inputs": [{"shape": k, "t1": repr(a)[:200], "t2": repr(b)[:200]} for a, b, k in judged],
+                        "oracle_failures": len(ctx.failures) - nf, "correspondence_or_witness_breaks": len(ctx.breaks) - nb}
+    if len(ctx.failures) == nf and len(ctx.breaks) == nb:
+        report["result"] = ("the generated glue differs from the hand model on these inputs' call trees, but the implementation shows neither a result that "
+                            "depends on the cache settings nor a cache event the hand model mispredicts")
+    return report
+
+
 def run(ctx):
     rng = ctx.rng
     sys.setrecursionlimit(10000)
-    n_pl = 40 if ctx.thorough else 4
-    n_ot = 60 if ctx.thorough else 6
+    # a broken source tie (the glue regenerated from the current diff.py is not proved equal to the hand model): the streams that exercise the
+    # translated fragment (correspondence of the recorded cache events, settings grid, splits, tuning) run at thorough size even in the quick tier
+    big = ctx.thorough or ctx.tie_broken("cacheglue")
+    if big and not ctx.thorough:
+        ctx.note("escalated_by_source_tie", "correspondence / settings grid / tuning streams at thorough size")
+    n_pl = 40 if big else 4
+    n_ot = 60 if big else 6
     inputs = gen_inputs(rng, n_pl, n_ot)
     replay_witnesses(ctx)
     inputs.append(K17_WITNESS + ("k17-witness",))
@@ -1590,19 +1780,19 @@ def run(ctx):
     tm = {}
     t0 = time.time()
     with mp.get_context("fork").Pool(core.NCPU) as pool:
-        smalls = [planted(rng, small=True) + ("planted-small",) for _ in range(12 if ctx.thorough else 3)]
-        for _ in range(6 if ctx.thorough else 1):
+        smalls = [planted(rng, small=True) + ("planted-small",) for _ in range(12 if big else 3)]
+        for _ in range(6 if big else 1):
             # two cache-using children under one dict whose key order differs between t1 and t2: the cache state
             # must flow through them in the order of t2's keys
             (a1, b1), (a2, b2) = planted(rng, small=True), planted(rng, small=True)
             if isinstance(a1, list) and isinstance(a2, list):
                 smalls.append(({"p": a1, "q": a2, "n": 1}, {"q": b2, "n": 1, "p": b1}, "planted-small"))
-        correspondence(ctx, smalls + inputs[: (n_pl + 10 if ctx.thorough else n_pl + 2)] + [inputs[-1]], pool)
+        correspondence(ctx, smalls + inputs[: (n_pl + 10 if big else n_pl + 2)] + [inputs[-1]], pool)
         tm["correspondence"] = round(time.time() - t0, 1)
         t0 = time.time()
-        oracle_grid(ctx, inputs, pool, full=ctx.thorough)
+        oracle_grid(ctx, inputs, pool, full=big)
         oracle_splits(ctx, pool)
-        oracle_tuning(ctx, pool, 150 if ctx.thorough else 48)
+        oracle_tuning(ctx, pool, 150 if big else 48)
         tm["grid"] = round(time.time() - t0, 1)
         t0 = time.time()
         oracle_hashes(ctx, pool, core.NCPU, 12 if ctx.thorough else 3, 6 if ctx.thorough else 2)
